@@ -305,7 +305,7 @@ def rule_KN(run: Run) -> RuleResult:
                 elif ok:
                     # translated from a caught exception: key taken from it
                     h = _enclosing_handler(fn, r)
-                    ok = h is not None and h.name is not None and astu.contains_name(a[0], h.name)
+                    ok = h is not None and h.name is not None and astu.contains_name(astu.expand_locals(a[0], astu.single_assign_map(fn)), h.name)
                     if ok and r.cause is None:
                         ok = False
                 res.add(f"{q}:raise KeyNotFoundError names key and source", ok, m.relpath, r.lineno, ast.unparse(r)[:100], nec)
